@@ -214,6 +214,78 @@ func connCase(va variant, k int) (impl string, dur time.Duration) {
 	return impl, time.Since(t0)
 }
 
+// ---------------------------------------------------------------------------------------------- two callers, one Conn
+
+// twoCallers: A's and B's requests are both written before the broker answers; the two response frames are then
+// delivered back to back and the connection is lost after k bytes.  Neither caller may hang.
+//
+//	c2 <topic hex> <A>:<ver>:0:0 <bodyA hex> <B>:<ver>:0:0 <bodyB hex> <k>\t<resA> <resB>
+func twoCallers(out *bufio.Writer, r *rand.Rand, thorough bool) (n, bad int) {
+	pairs := [][2]string{{"listOffsets", "listOffsets"}, {"heartbeat", "offsetCommit"}, {"offsetFetch", "heartbeat"},
+		{"findCoordinator", "listGroups"}, {"listOffsets", "syncGroup"}, {"leaveGroup", "listOffsets"}}
+	for _, pr := range pairs {
+		for _, errs := range [][]int16{nil, {6}} {
+			opA, opB := connfake.OpByName(pr[0]), connfake.OpByName(pr[1])
+			wa := &connfake.W{Errs: errs}
+			opA.Build(opA.Versions[0], wa, r, &connfake.Shape{Topic: topic})
+			wb := &connfake.W{}
+			opB.Build(opB.Versions[0], wb, r, &connfake.Shape{Topic: topic})
+			total := 16 + len(wa.B) + len(wb.B)
+			for _, k := range cuts(r, total, true, 0) {
+				if !thorough && k > 12 && k < total-4 && k%3 != 0 && (k < 8+len(wa.B)-2 || k > 8+len(wa.B)+10) {
+					continue
+				}
+				c, br := connfake.Start(topic, connfake.VersionTable(nil))
+				c.SetDeadline(time.Now().Add(2 * time.Second))
+				br.Push(opA.Key, connfake.Resp{Body: wa.B, Cut: -1})
+				br.Push(opB.Key, connfake.Resp{Body: wb.B, Cut: -1})
+				cut := k
+				if k >= total {
+					cut = -1
+				}
+				br.Hold(2, cut)
+				call := func(op *connfake.Op) chan string {
+					ch := make(chan string, 1)
+					go func() {
+						defer func() {
+							if p := recover(); p != nil {
+								ch <- "panic"
+							}
+						}()
+						_, err := op.Call(c, &connfake.Shape{Topic: topic})
+						ch <- connfake.Outcome(err)
+					}()
+					return ch
+				}
+				chA := call(opA)
+				for i := 0; i < 2000 && len(br.Log()) < 1; i++ {
+					time.Sleep(100 * time.Microsecond)
+				}
+				chB := call(opB)
+				wait := func(ch chan string) string {
+					select {
+					case x := <-ch:
+						return x
+					case <-time.After(3 * time.Second):
+						return "hang"
+					}
+				}
+				resA, resB := wait(chA), wait(chB)
+				go func() { c.Close(); br.Stop() }()
+				fmt.Fprintf(out, "c2 %s %s:%d:0:0 %s %s:%d:0:0 %s %d\t%s %s\n", gen.Hex([]byte(topic)), opA.Name, opA.Versions[0], gen.Hex(wa.B),
+					opB.Name, opB.Versions[0], gen.Hex(wb.B), k, resA, resB)
+				n++
+				if resA == "hang" || resB == "hang" {
+					if bad++; bad >= 5 {
+						return
+					}
+				}
+			}
+		}
+	}
+	return
+}
+
 // ---------------------------------------------------------------------------------------------- Transport path
 
 var recordSetType = reflect.TypeOf(protocol.RecordSet{})
@@ -352,6 +424,10 @@ func main() {
 			}
 		}
 	}
+	n2, bad2 := twoCallers(out, r, thorough)
+	fmt.Fprintf(os.Stderr, "c17 driver: %d two-caller cases (%d with a hung caller; stops at 5)\n", n2, bad2)
+	nlo := multiPart(out, r, thorough)
+	fmt.Fprintf(os.Stderr, "c17 driver: %d split list-offsets cases (one sub-response cut)\n", nlo)
 	ntp, tslow := transportPath(out, r, thorough)
 	fmt.Fprintf(os.Stderr, "c17 driver: %d transport/writer end-to-end cases (slowest %v)\n", ntp, tslow.Round(time.Millisecond))
 	out.Flush()
